@@ -662,13 +662,22 @@ class CompositeFrame(CoordinateFrame):
     def _wao_classes_rename_map(self):
         mapper = defaultdict(dict)
         seen_names = []
+        used_names = []
         for frame in self.frames:
             # ensure the frame is in the mapper
             mapper[frame]
             for key in frame._world_axis_object_classes.keys():
-                if key in seen_names:
-                    new_key = f"{key}{seen_names.count(key)}"
+                new_key = key
+                count = seen_names.count(key)
+                # pick a key that no other frame uses, neither as its own key
+                # nor as an already renamed one (e.g. "SPATIAL1")
+                while new_key in used_names:
+                    count = max(count, 1)
+                    new_key = f"{key}{count}"
+                    count += 1
+                if new_key != key:
                     mapper[frame][key] = new_key
+                used_names.append(new_key)
                 seen_names.append(key)
         return mapper
 
